@@ -5,7 +5,7 @@ CONSTANTS
  Gg = 3
  Vars = {"two"}
  Ns = {2}
- MsgVecs <- MV11
+ MsgVecs <- MV11t
  CCoins <- AllZq
  SCoins <- C2a
  Tamper = FALSE
